@@ -139,6 +139,7 @@ type Conn struct {
 	conn    net.Conn
 	fidpool map[uint32]*SrvFid
 	reqs    map[uint16]*SrvReq // all outstanding requests
+	closed  bool               // the connection is gone: its fid table keeps no reference any more
 
 	reqout chan *SrvReq
 	rchan  chan *Fcall
@@ -162,6 +163,8 @@ type SrvFid struct {
 	fid       uint32
 	refcount  int
 	creating  bool        // True while the Tattach, Tauth or Twalk creating the fid is unanswered
+	linked    bool        // True while the connection's fid table holds a reference
+	dead      bool        // True once the last reference is gone
 	opened    bool        // True if the SrvFid is opened
 	Fconn     *Conn       // Connection the SrvFid belongs to
 	Omode     uint8       // Open mode (O* flags), if the fid is opened
@@ -480,9 +483,10 @@ func (conn *Conn) FidGet(fidno uint32) *SrvFid {
 	conn.Unlock()
 	if present {
 		fid.Lock()
-		if fid.creating {
-			/* still being created by an unanswered request: the implementation
-			   has not set it up yet, so other requests must not see it */
+		if fid.creating || fid.dead {
+			/* still being created by an unanswered request (the implementation
+			   has not set it up yet), or its last reference was dropped while we
+			   looked it up: other requests must not see it */
 			fid.Unlock()
 			return nil
 		}
@@ -522,10 +526,30 @@ func (conn *Conn) String() string {
 // Keeps a fid created by a request beyond that request and makes it
 // visible to other requests.
 func (fid *SrvFid) retain() {
+	conn := fid.Fconn
+	conn.Lock()
 	fid.Lock()
-	fid.refcount++
+	if !conn.closed {
+		/* the table's reference; the table of a closed connection keeps nothing,
+		   so the fid goes away with the request that created it */
+		fid.refcount++
+		fid.linked = true
+	}
 	fid.creating = false
 	fid.Unlock()
+	conn.Unlock()
+}
+
+// Drops the reference the connection's fid table holds, at most once per
+// fid (a clunk or remove can race with the connection being closed).
+func (fid *SrvFid) unlink() {
+	fid.Lock()
+	linked := fid.linked
+	fid.linked = false
+	fid.Unlock()
+	if linked {
+		fid.DecRef()
+	}
 }
 
 // Increase the reference count for the fid.
@@ -541,17 +565,20 @@ func (fid *SrvFid) DecRef() {
 	fid.Lock()
 	fid.refcount--
 	n := fid.refcount
+	if n == 0 {
+		fid.dead = true
+	}
 	fid.Unlock()
 
 	if n != 0 {
-		/* still referenced, or already destroyed (a clunk or remove that was
-		   executing while its connection closed drops the table's reference twice) */
 		return
 	}
 
 	conn := fid.Fconn
 	conn.Lock()
-	delete(conn.fidpool, fid.fid)
+	if conn.fidpool[fid.fid] == fid {
+		delete(conn.fidpool, fid.fid)
+	}
 	conn.Unlock()
 
 	if fop, ok := (conn.Srv.ops).(SrvFidOps); ok {
